@@ -284,6 +284,19 @@ func stressOps(shared *spec.Swagger, sharedCache spec.ResolutionCache) []func() 
 	}
 	return []func() (string, error){
 		noBaseOp("d1"), noBaseOp("d2"), noBaseOp("d3"),
+		func() (string, error) { // a location and a schema id that are no valid URIs (the library warns and repairs)
+			var s spec.Schema
+			_ = json.Unmarshal([]byte(`{"id":"http://[::1/x","type":"object","properties":{"a":{"$ref":"#/definitions/A"}},"definitions":{"A":{"title":"a"}}}`), &s)
+			err := spec.ExpandSchemaWithBasePath(&s, nil, &spec.ExpandOptions{RelativeBase: "%zz/doc.json", PathLoader: stressLoader})
+			b, _ := json.Marshal(s)
+			return fmt.Sprintf("%s err=%v", b, err), nil
+		},
+		func() (string, error) { // a path item stored, in Go, under a key without the leading slash
+			p, _ := jsonpointer.New("/paths/owners")
+			v, _, err := p.Get(shared)
+			b, _ := json.Marshal(v)
+			return fmt.Sprintf("%s err=%v", b, err), nil
+		},
 		func() (string, error) { // ExpandSpec on an own copy, no cache
 			var sw spec.Swagger
 			_ = json.Unmarshal([]byte(stressRoot), &sw)
@@ -364,6 +377,13 @@ func runStress(id, g, rounds, procs int) *concObs {
 	}
 	var shared spec.Swagger
 	_ = json.Unmarshal([]byte(stressRoot), &shared)
+	if shared.Paths == nil {
+		shared.Paths = &spec.Paths{}
+	}
+	if shared.Paths.Paths == nil {
+		shared.Paths.Paths = map[string]spec.PathItem{}
+	}
+	shared.Paths.Paths["owners"] = spec.PathItem{PathItemProps: spec.PathItemProps{Get: spec.NewOperation("owners")}}
 	cache := spec.VerifNewCache()
 	ops := stressOps(&shared, cache)
 	want := make([]string, len(ops))
